@@ -21,7 +21,7 @@ claim('C11', 'model_checking',
       'exhaustive enumeration of all partitions with <= k cuts (plus byte-at-a-time schedules) of every corpus stream, executed on the real loader / bus transport, differential against the unsplit run and the reference splitter',
       'The read schedule is the only nondeterminism of framing. For each stream (1-3 messages of varied sizes and byte orders, optionally an invalid message and trailing bytes) every partition '
       'with at most k cut points and the byte-wise partitions are executed on the real DBusMessageLoader; the popped message sequence and the place where corruption is declared must equal the unsplit run, '
-      'which must equal the independent stream splitter. The same is done through the real socket transport of an in-process bus across the BEGIN/message boundary.',
+      'which must equal the independent stream splitter. The same is done through the real socket transport of an in-process bus across the BEGIN/message boundary, and with libdbus as the server end of a peer-to-peer connection (harness/vserve) driven once by blocking iterations (dbus_connection_read_write_dispatch: the do_iteration path) and once by its watches, where the client writes a pipelined handshake plus 3 or 40 messages (5 KB, more than one 2048-byte read behind BEGIN) with every single cut and double cuts around BEGIN and the read-size boundaries.',
       'Streams outside the corpus and partitions with more than k cuts (other than byte-wise) are not covered. Unix fd passing interaction with max_to_read is covered by running every partition with and without honouring the hint.',
       'DESIGN.md section 4 C11')
 
@@ -190,6 +190,67 @@ def task_transport(cutsets):
     return {'viol': [v.to_json() for v in out[:5]], 'runs': n, 'n': n, 'kind': 'transport'}
 
 
+# ---- libdbus as the server end, driven by blocking iterations or by watches ----------------
+
+def server_streams():
+    """(name, handshake, [messages]) — one short stream and one that leaves more than one 2048-byte read behind BEGIN."""
+    hs = b'\0AUTH EXTERNAL 30\r\nNEGOTIATE_UNIX_FD\r\nBEGIN\r\n'
+    short = [R.encode_message(R.signal(1, '/a', 'a.b', 'S0', [R.S('x')])),
+             R.encode_message(R.method_call(2, None, '/a', 'a.b', 'M', [R.U(7), R.S('yy')], endian='B')),
+             R.encode_message(R.signal(3, '/a', 'a.b', 'S2', []))]
+    long_ = [R.encode_message(R.signal(i + 1, '/a', 'a.b', 'L%d' % i, [R.S('p' * (40 + i))])) for i in range(40)]
+    return [('short', hs, short), ('long', hs, long_)]
+
+
+def server_expected(msgs):
+    out = []
+    for raw in msgs:
+        m = R.decode_message(raw)
+        out.append((m.mtype, (m.member or b'-').decode(), m.serial))
+    return out
+
+
+def task_server(t):
+    """t = (stream name, mode, list of cut tuples)"""
+    name, mode, cutsets = t
+    h = worker_harness('vserve')
+    out = []
+    n = 0
+    st = [x for x in server_streams() if x[0] == name][0]
+    data = st[1] + b''.join(st[2])
+    want = server_expected(st[2])
+    from ..vbox import RUN_ROOT
+    try:
+        for cuts in cutsets:
+            r = h.cmd('SERVE %s %s' % (mode, RUN_ROOT))
+            if not r.startswith('OK accepted=1'):
+                out.append(Violation('server-setup', mode, 'SERVE answered %r' % r, {'server': [name, mode, list(cuts)]}))
+                break
+            pos = 0
+            for c in list(cuts) + [len(data)]:
+                h.cmd('W ' + (data[pos:c].hex() or '-'))
+                pos = c
+            r = h.cmd('LOG')
+            n += 1
+            log = r.split('log=', 1)[1] if 'log=' in r else ''
+            got = []
+            for item in log.strip(';').split(';'):
+                if item and item != '-' and item != 'DISCONNECTED':
+                    f = item.split(':')
+                    got.append((int(f[0]), f[1], int(f[2])))
+            connected = ' connected=1 ' in r
+            if got != want or not connected:
+                out.append(Violation('chunking-changes-result', 'server-' + mode,
+                                     'libdbus as server (%s), stream %r written with cuts %s: received %d of %d messages%s; first difference at index %d' %
+                                     (mode, name, list(cuts)[:12], len(got), len(want), '' if connected else ', connection closed as corrupt',
+                                      next((i for i, (a, b) in enumerate(zip(got + [None] * len(want), want)) if a != b), -1)), {'server': [name, mode, list(cuts)]}))
+        h.cmd('END')
+    except HarnessDied as e:
+        out.append(crash_violation(e, {'server': [name, mode, [list(c) for c in cutsets][:1][0] if cutsets else []]}))
+        h.close()
+    return {'viol': [v.to_json() for v in out[:4]], 'runs': n, 'n': n, 'kind': 'server'}
+
+
 def _dispatch(t):
     fn, arg = t
     return fn(arg)
@@ -209,7 +270,23 @@ def run(ctx):
     cutsets = singles + doubles + bytewise + after
     for i in range(0, len(cutsets), 60):
         tasks.append((task_transport, cutsets[i:i + 60]))
+    # libdbus as server: every single cut of both streams, double cuts around BEGIN and around the 2048-byte read
+    # boundaries behind it, one cut followed by byte-at-a-time; blocking-iteration and watch-driven
+    server_runs_planned = 0
+    for name, hs_, msgs_ in server_streams():
+        Ls = len(hs_) + sum(len(x) for x in msgs_)
+        cs = [()] + [(a,) for a in range(1, Ls)]
+        near = sorted(set(range(max(1, len(hs_) - 6), len(hs_) + 10)) | set(len(hs_) + k + d for k in (2048, 4096) for d in range(-12, 4) if 0 < len(hs_) + k + d < Ls))
+        cs += [(a, b) for a in near for b in near if a < b]
+        if name == 'short' or ctx.tier == 'thorough':
+            cs += [tuple(range(1, Ls))]
+            cs += [tuple([a] + list(range(a + 1, Ls))) for a in range(1, min(Ls, 80), 5)]
+        for mode in ('rwd', 'watch'):
+            server_runs_planned += len(cs)
+            for i in range(0, len(cs), 400):
+                tasks.append((task_server, (name, mode, cs[i:i + 400])))
     pool = Pool()
+    server_runs = 0
     loader_runs = 0
     transport_runs = 0
     nstreams = 0
@@ -224,6 +301,8 @@ def run(ctx):
             if r['kind'] == 'loader':
                 loader_runs += r['runs']
                 nstreams += 1
+            elif r['kind'] == 'server':
+                server_runs += r['runs']
             else:
                 transport_runs += r['runs']
             if ctx.expired():
@@ -234,13 +313,15 @@ def run(ctx):
         pool.close()
     ctx.hit('loader-partitions', loader_runs)
     ctx.hit('transport-partitions', transport_runs)
+    ctx.hit('server-side-partitions', server_runs)
     ctx.coverage.update({
         'states': nstreams + 1,
-        'transitions': loader_runs + transport_runs,
-        'traces_validated_against_impl': loader_runs + transport_runs,
-        'streams': nstreams, 'loader_schedules': loader_runs, 'transport_schedules': transport_runs,
+        'transitions': loader_runs + transport_runs + server_runs,
+        'traces_validated_against_impl': loader_runs + transport_runs + server_runs,
+        'streams': nstreams, 'loader_schedules': loader_runs, 'transport_schedules': transport_runs, 'server_side_schedules': server_runs,
         'bound': 'loader: every partition with <= k cuts (k per stream: 1..3) + byte-at-a-time + one-cut-then-byte-at-a-time, each with and without honouring the max_to_read hint; '
-                 'transport: every single cut of the %d-byte pipelined handshake+3 messages, %s double cuts, byte-at-a-time' % (L, 'all' if ctx.tier == 'thorough' else 'all around the BEGIN boundary'),
+                 'transport: every single cut of the %d-byte pipelined handshake+3 messages, %s double cuts, byte-at-a-time; '
+                 'libdbus as server (blocking iterations and watch-driven): every single cut of a 3-message and a 40-message (5 KB) stream, double cuts around BEGIN and the 2048-byte read boundaries' % (L, 'all' if ctx.tier == 'thorough' else 'all around the BEGIN boundary'),
         'tasks': len(tasks), 'tasks_done': done,
     })
     ctx.samples = [{'stream': 'call(le) + signal(be, 7-byte body)', 'partition': [17, 93]}, {'transport_cuts': [len(hs) - 1, len(hs) + 3]}]
@@ -251,6 +332,10 @@ def run(ctx):
 def replay(case):
     if 'stream' in case:
         r = task_stream((case['stream'], case['k']))
+        return [Violation.from_json(v) for v in r['viol']]
+    if 'server' in case:
+        name, mode, cuts = case['server']
+        r = task_server((name, mode, [tuple(cuts)]))
         return [Violation.from_json(v) for v in r['viol']]
     if 'cuts' in case:
         r = task_transport([tuple(case['cuts'])])
